@@ -122,6 +122,24 @@ func runC11(c *fw.Ctx) {
 	}
 	c11RunFixed(c, &item, big, bigLists)
 	c.Bound("large_bucket_objects", len(big))
+	// names at the length limit (1024 bytes; path components stay below 255 bytes so that the file store can hold them):
+	// collapsed prefixes of 1021-1024 bytes, whose resume cursor is longer than any object name
+	deep := strings.Repeat("p/", 505) // 1010 bytes
+	var long []string
+	for _, g := range []string{"g12345678/", "g123456789/", "g1234567890/", "g12345678901/"} { // groups of 1020..1023 bytes
+		long = append(long, deep+g+"a", deep+g+"b")
+	}
+	long = append(long, deep+"h", deep+"i/j", deep+strings.Repeat("n", 14), "q")
+	var longLists []GOp
+	for _, p := range []string{"", deep, deep + "g"} {
+		for _, d := range []string{"/", ""} {
+			for _, mx := range []string{"1", "2", "1000"} {
+				longLists = append(longLists, GOp{Kind: "List", Bucket: "b", Prefix: p, Delim: d, MaxRes: mx})
+			}
+		}
+	}
+	c11RunFixed(c, &item, long, longLists)
+	c.Bound("long_names_max_len", 1024)
 	c.Bound("universe", c11Universe)
 	c.Bound("universe_unicode", fmt.Sprintf("%+q", c11UniverseU))
 	c.Bound("list_requests_per_bucket", len(c11Lists()))
